@@ -6,13 +6,17 @@
        the write (per-position selection) puts the value at j and leaves every other element unchanged;
      - an index outside 0..n-1 admits no satisfying assignment (cannot be proven).
    Completeness of array programs (honest witness satisfies) is the C01 theorem; "identical constraints for every index
-   value" is the C06 theorem.  NOT proved in Coq: that the model's arr_get/arr_set (which go through the operator dispatch)
-   emit exactly the constraints the core assumes; the Array model is compared trace-for-trace with the real code, every
+   value" is the C06 theorem.  LINKED to the model (Proofs/ArrayModel.v, theorems C15_model_read_is_exact etc.): the constraints that the model's secret-index
+   read and write of a 1-D array of secret integers / plain ints really emit -- through the Python operator dispatch -- force exactly
+   that, for any assignment (no guard active or a guard whose wire is 1; LinComb.ONE = 1).  NOT proved in Coq: multi-dimensional
+   index tuples (arr_get/arr_set recursion), arrays of other element kinds, writes of a value that is itself (the same Python object
+   as) an element.  The Array model is compared trace-for-trace with the real code, every
    generated sequence of reads and writes (1-D, 2-D, constants and secrets) is compared with plain Python lists, and
    out-of-bounds indices must raise / leave the constraint system unsatisfied. *)
 From Coq Require Import ZArith List Bool Lia Znumtheory.
 From PySnark.Base Require Import FieldZ.
-From PySnark.Proofs Require Import ArrayCore.
+From PySnark.Model Require Import Lc Sym Gadgets Api Prog.
+From PySnark.Proofs Require Import Meta Adv AdvGadgets ArrayCore ArrayModel.
 Import ListNotations.
 Open Scope Z_scope.
 
@@ -24,6 +28,45 @@ Proof. intros p Hp. exact (array_access p Hp). Qed.
 Theorem C15_out_of_bounds_cannot_be_proven : forall p, prime p -> forall idx es,
   Z.of_nat (length es) <= p -> selectors p idx 0 es -> (forall j, (j < length es)%nat -> ~ feq p idx (Z.of_nat j)) -> ~ feq p (sum es) 1.
 Proof. intros p Hp. exact (out_of_bounds_unprovable p Hp). Qed.
+(* ---- the same about the constraints the MODEL's Array.__getitem__ / __setitem__ emit for a secret index ---- *)
+Section C15_model.
+Variable p : Z.
+Hypothesis Hp : prime p.
+Variable w : var -> Z.                 (* ANY assignment of the variables *)
+Hypothesis W0 : w 0 = 1.
+Variable c : cfg.
+Variable s : @Gadgets.gst p.
+Hypothesis G : AdvGadgets.Gok w s.     (* no active guard, or the active guard's wire is 1 under w *)
+Hypothesis O : AdvGadgets.Oone w s.    (* LinComb.ONE evaluates to 1 (it is the guard inside a guarded region) *)
+Notation "a == b" := (feq p a b) (at level 70).
+Notation ew := (AdvGadgets.ew w).
+Notation elw := (ArrayModel.elw w).
+Notation sat cs := (Forall (holds (p:=p) w) (cons_of cs)).
+
+Theorem C15_model_read_is_exact : forall (l : list (Sym.slc p + Z)) x r s' cs, l <> [] -> Z.of_nat (length l) <= p ->
+  run (arr_get1 c (map inj l) (PLC x)) s = (inl r, s', cs) -> sat cs ->
+  exists j t, (j < length l)%nat /\ r = PLC t /\ ew x == Z.of_nat j /\ ew t == nth j (map elw l) 0.
+Proof. exact (arr_get1_forced Hp w W0 c s G O). Qed.
+Theorem C15_model_out_of_bounds_unprovable : forall (l : list (Sym.slc p + Z)) x r s' cs, l <> [] -> Z.of_nat (length l) <= p ->
+  (forall j, (j < length l)%nat -> ~ ew x == Z.of_nat j) ->
+  run (arr_get1 c (map inj l) (PLC x)) s = (inl r, s', cs) -> ~ sat cs.
+Proof. exact (arr_get1_out_of_bounds Hp w W0 c s G O). Qed.
+Theorem C15_model_write_is_exact : forall (l : list (Sym.slc p + Z)) x v r s' cs, l <> [] -> Z.of_nat (length l) <= p ->
+  Forall (fun old => same_val (PLC v) (inj old) = false) l ->
+  run (arr_set1 c (map inj l) (PLC x) (PLC v)) s = (inl r, s', cs) -> sat cs ->
+  exists j ts, r = map PLC ts /\ length ts = length l /\ (j < length l)%nat /\ ew x == Z.of_nat j /\ nth j (map ew ts) 0 == ew v /\
+               forall i, (i < length l)%nat -> i <> j -> nth i (map ew ts) 0 == nth i (map elw l) 0.
+Proof. exact (arr_set1_forced Hp w W0 c s G O). Qed.
+End C15_model.
+Print Assumptions C15_model_read_is_exact.
+Print Assumptions C15_model_out_of_bounds_unprovable.
+Print Assumptions C15_model_write_is_exact.
+(* non-vacuity: the model's read of [10; 20; 30] at a secret index does return (a run exists), emitting constraints *)
+Example C15_model_example :
+  let s0 : @Gadgets.gst 65537 := upd_counters (init_gst (p:=65537)) 0 1 10 in
+  exists r s' cs, run (arr_get1 {| bitlength := 8%nat; resolution := 0 |} (map inj [inr 10; inr 20; inr 30]) (PLC (var_slc (-1)))) s0 = (inl r, s', cs)
+                  /\ length (cons_of cs) = 7%nat.
+Proof. cbv zeta. eexists. eexists. eexists. split; [vm_compute; reflexivity|vm_compute; reflexivity]. Qed.
 (* non-vacuity: the honest selectors of index 2 in an array of 4 *)
 Example C15_example : selectors 65537 2 0 [0; 0; 1; 0] /\ feq 65537 (sum [0; 0; 1; 0]) 1 /\ dot [0; 0; 1; 0] [10; 20; 30; 40] = 30 /\ upd [0; 0; 1; 0] [10; 20; 30; 40] 7 = [10; 20; 7; 40].
 Proof.
